@@ -23,6 +23,7 @@ class Runaway(RuntimeError):
 
 class _State:
     installed = False
+    helper_atol = 1e-7
     session = None
     counts = {"sample_discrete": 0, "sample_discrete_maps": 0, "forward_batches": 0, "choice_calls": 0,
               "helper_groups_verified": 0}
@@ -42,7 +43,9 @@ def _np(x):
 
 
 class Session:
-    def __init__(self, max_batches=200):
+    def __init__(self, max_batches=200, max_rows=300000):
+        self.max_rows = max_rows
+        self.rows = 0
         self.batches = []        # forward_sample invocations, in order
         self.stack = []
         self.loose = []          # helper calls made outside forward_sample (LW, Gibbs)
@@ -97,7 +100,7 @@ def _verify_helper(widx, wtab, out, calls, k):
                 continue
             if list(a.tolist()) != list(range(k)):
                 continue
-            if not np.allclose(pc, p, atol=1e-7, rtol=0):
+            if not np.allclose(pc, p, atol=ST.helper_atol, rtol=0):
                 continue
             if not np.array_equal(out[rows], oc):
                 continue
@@ -204,6 +207,12 @@ def install():
             args = dict(ba.arguments)
         except Exception:
             args = {}
+        try:
+            ses.rows += int(args.get("size") or 0)
+        except Exception:
+            pass
+        if ses.rows > ses.max_rows:
+            raise Runaway(f"more than {ses.max_rows} forward rows requested inside one sampler call")
         b = {"events": [], "size": args.get("size"), "include_latents": args.get("include_latents"),
              "partial": args.get("partial_samples"), "seed": args.get("seed"), "model": self.model,
              "result": None, "depth": len(ses.stack)}
